@@ -26,6 +26,7 @@ mod storage;
 mod tables;
 mod disasm;
 mod cli;
+mod lift;
 
 fn main() {
     util::install_panic_hook();
@@ -47,6 +48,7 @@ fn main() {
         "drive-tables" => tables::drive(rest),
         "drive-disasm" => disasm::drive(rest),
         "drive-cli" => cli::drive(rest),
+        "drive-lift" => lift::drive(rest),
         "dump-disasm-names" => disasm::dump_names(rest),
         other => {
             eprintln!("vh: unknown subcommand {}", other);
